@@ -111,7 +111,13 @@ int main() {
     if (t.w.empty()) continue;
     std::vector<std::string>& w = t.w;
     try {
-      if (w[0] == "cfg") { cleanup(); st = new SpyStack(); std::cout << "cfg\n"; }
+      if (w[0] == "cfg") {
+        cleanup(); st = new SpyStack();
+#ifdef RJHOGAN_ADEPT_2_VERIF
+        verif::EventLog::install(); verif::EventLog::buf().clear();
+#endif
+        std::cout << "cfg\n";
+      }
       else if (w[0] == "new" && w.size() == 3) {
         adouble* x = new adouble(atof(w[2].c_str())); vars[atol(w[1].c_str())] = x;
         std::cout << "ok " << x->gradient_index() << "\n";
@@ -218,6 +224,12 @@ int main() {
         for (int i = 0; i < 256; ++i) { if (adept::verif_omp_blocks_[i]) std::cout << " " << i << ":" << adept::verif_omp_blocks_[i]; adept::verif_omp_blocks_[i] = 0; }
 #endif
         std::cout << "\n";
+      } else if (w[0] == "ev") {
+#ifdef RJHOGAN_ADEPT_2_VERIF
+        std::cout << verif::EventLog::take(*st) << "\n";
+#else
+        std::cout << "E\n";
+#endif
       } else if (w[0] == "tape") print_tape();
       else if (w[0] == "val" && w.size() == 2) {
         long k = atol(w[1].c_str());
